@@ -10,20 +10,20 @@ Open Scope nat_scope.
    name reach every (object, trait) along at most one path: a listener that does not count
    references and observe's reference-counted notifier report the same number of calls. *)
 Theorem unshared_multiplicity_le_1 :
-  forall rank h k e gs r x f,
+  forall t rank h k e gs r x f,
     ranked rank h -> unshared h -> names_nodup e -> legacy_to_graph e = Some gs ->
-    path_count h k gs r x f <= 1.
+    path_count t h k gs r x f <= 1.
 Proof. exact path_count_le_1_lemma. Qed.
 Print Assumptions unshared_multiplicity_le_1.
 
 (* stronger: on such heaps no notifier at all is expected twice *)
 Theorem unshared_hooks_nodup :
-  forall rank h k e gs r,
+  forall t rank h k e gs r,
     ranked rank h -> unshared h -> names_nodup e -> legacy_to_graph e = Some gs ->
-    NoDup (flat_map (fun g => expected h k g r) gs).
+    NoDup (flat_map (fun g => expected t h k g r) gs).
 Proof.
-  intros rank h k e gs r R U ND L. destruct (legacy_distinct e gs ND L) as [DF DA].
-  apply (expected_list_NoDup rank h k R U gs r DF DA).
+  intros t rank h k e gs r R U ND L. destruct (legacy_distinct e gs ND L) as [DF DA].
+  apply (expected_list_NoDup t rank h k R U gs r DF DA).
 Qed.
 Print Assumptions unshared_hooks_nodup.
 
@@ -36,15 +36,15 @@ Theorem legacy_spec_eq_observe_model :
     ranked rank (st_heap st) -> unshared (st_heap st) ->
     names_nodup e -> legacy_to_graph e = Some gs -> st_regs st = map (pair k) gs ->
     length (filter (hkey_eqb k) (map call_key (ob_calls (snd (step st o)))))
-    = path_count (st_heap st) k gs (snd k) x f.
+    = path_count (st_traits st) (st_heap st) k gs (snd k) x f.
 Proof. exact legacy_eq_observe_lemma. Qed.
 Print Assumptions legacy_spec_eq_observe_model.
 
 (* ... where the C08 hypothesis (edge-acyclicity) holds trivially: links go up the rank, and the
    objects put into the slot are above its owner (fresh objects at every insertion). *)
 Theorem tree_shaped_edge_acyclic :
-  forall rank h rs o fo news,
-    ranked rank h -> (forall y, In y news -> rank o < rank y) -> edge_acyclic h rs o fo news.
+  forall t rank h rs o fo news,
+    fo <> TA -> ranked rank h -> (forall y, In y news -> rank o < rank y) -> edge_acyclic t h rs o fo news.
 Proof. exact ranked_edge_acyclic_lemma. Qed.
 Print Assumptions tree_shaped_edge_acyclic.
 
@@ -57,10 +57,10 @@ Print Assumptions remove_stops_calls.
 
 (* Re-assigning the intermediate trait named first: reported iff the separator after it is '.'. *)
 Theorem dot_reports_colon_silent :
-  forall rank h names s rest gs r f,
-    ranked rank h -> rest <> [] -> NoDup names -> In f names ->
+  forall t rank h names s rest gs r f,
+    ranked rank h -> (forall f', In f' names -> t r f' = true) -> rest <> [] -> In f names ->
     legacy_to_graph ((names, s) :: rest) = Some gs ->
-    existsb (fun g => matched h g r r f) gs = sep_notify s.
+    existsb (fun g => matched t h g r r f) gs = sep_notify s.
 Proof. exact dot_colon_lemma. Qed.
 Print Assumptions dot_reports_colon_silent.
 
@@ -68,11 +68,11 @@ Print Assumptions dot_reports_colon_silent.
    hypotheses, and the path counts. *)
 Example name_nontrivial :
   let e := [([3], Dot); ([1], Colon); ([0], Dot)] in
-  let gs := [G 3 true [G 6 true [G 1 false [G 0 true []]]]] in
-  let ops := [SetCont 0 3 [1; 2] false; SetRef 1 1 [3]; SetRef 2 1 [4]; Observe 0 0 (hd (G 0 true []) gs);
+  let gs := [G [3] true true [G [6] true false [G [1] false true [G [0] true true []]]]] in
+  let ops := [SetCont 0 3 [1; 2] false; SetRef 1 1 [3]; SetRef 2 1 [4]; Observe 0 0 (hd (G [0] true true []) gs);
               Probe 3; SetRef 1 1 [5]; Probe 3; Probe 5; Splice 6 6 0 1 []; Probe 5] in
   legacy_to_graph e = Some gs
   /\ hyps (init 6) ops = true
   /\ map (fun p => length (ob_calls (snd p))) (run (init 6) ops) = [0; 0; 0; 0; 1; 0; 0; 1; 1; 0]
-  /\ path_count (st_heap (final (init 6) (firstn 4 ops))) (0, 0) gs 0 3 0 = 1.
+  /\ path_count init_traits (st_heap (final (init 6) (firstn 4 ops))) (0, 0) gs 0 3 0 = 1.
 Proof. vm_compute. repeat split; reflexivity. Qed.
